@@ -23,17 +23,19 @@ PROP = dict(
              "distinct by the scenario parameters",
         modelled=["store keys and values as opaque codes (60-bit digests); ids = trailing 8 bytes of the key",
                   "InitGenesis success path; setters that can return an error on a condition over OTHER state only mark the prefixes they (and everything after an aborting one) feed as at risk; "
-                  "setters that reject on a condition over the imported item alone (collector.SetNetFeeCollectedData: negative fee; recognised by the translator as guard kind 3/4) are taken on their success path",
+                  "setters that reject on a condition over the imported item alone (collector.SetNetFeeCollectedData: negative fee; recognised by the translator as guard kind 3/4) are taken on their success path; "
+                  "so are setters validating against other modules when the table shows the validation harmless (guard_harmless: sole writer of its prefixes, no read of its own store, foreign reads only of never-deleted round-tripping prefixes of modules initialised earlier: esm.SetKillSwitchData)",
                   "derived indexes (asset by denom/name, liquidity pair/pool/order indexes) as an abstract function of the exported records, with the consistency of the original state as a hypothesis",
                   "fresh chain = the DeFi module stores and parameter subspaces emptied on a branch of the populated chain (bank, auth, staking state identical by construction)"],
         assumptions=["the translator's reading of store accesses (go/types): Set/Delete/Get/Has/iterators on a KVStore with a key resolved to a declared 1-byte prefix; unresolved writes are Unrecognised rows and fail the theorem",
                      "counters recomputed as a maximum are exact only when the collection is never deleted from and the counter was its maximum id (hypothesis of c20_counters_partial)",
-                     "an import setter that rejects an item on a condition over the item alone accepts every record the module's own writers stored (collector net fees: both writers of the prefix reject a negative result); checked by the behavioural run (prediction 'identical' for that prefix), not proved"],
+                     "an import setter that rejects an item on a condition over the item alone accepts every record the module's own writers stored (collector net fees: both writers of the prefix reject a negative result); checked by the behavioural run (prediction 'identical' for that prefix), not proved",
+                     "a record accepted by a validating setter when it was written is accepted again at import when that setter is the only writer of the prefix and the foreign state it consults only grows and is imported earlier (guard_harmless); checked by the behavioural run on the esm kill switches"],
     )
 
 MANIFEST = dict(
-    level_text="Genesis coverage of all 14 DeFi modules decided by computation over a table regenerated from the Go source on every run (store prefixes and their writers, ExportGenesis field<-getter<-prefixes read, InitGenesis setter<-fields->prefixes written, counter restore shapes, error-guarded setters and whether their error depends on the item alone or on other state) and lifted by generic lemmas: every live prefix outside 12 listed known-finding classes (3-6, 8-11, 13-16) round-trips (init (export s) = s on it) and every id counter outside them is restored to its value; fresh-id lemma for max-restored counters. Each class has a refutation theorem. The table+model's per-prefix prediction is compared with the real ExportGenesis->JSON->InitGenesis of every module on generated states, and a fixed plus a random continuation workload (user messages, block hooks, price moves) is run on both chains, comparing result classes, assigned ids and balance changes step by step.",
+    level_text="Genesis coverage of all 14 DeFi modules decided by computation over a table regenerated from the Go source on every run (store prefixes and their writers, ExportGenesis field<-getter<-prefixes read, InitGenesis setter<-fields->prefixes written, counter restore shapes, error-guarded setters and whether their error depends on the item alone or on other state) and lifted by generic lemmas: every live prefix outside 11 listed known-finding classes (3-6, 8-11, 14-16) round-trips (init (export s) = s on it) and every id counter outside them is restored to its value; fresh-id lemma for max-restored counters. Each class has a refutation theorem. The table+model's per-prefix prediction is compared with the real ExportGenesis->JSON->InitGenesis of every module on generated states, and a fixed plus a random continuation workload (user messages, block hooks, price moves) is run on both chains, comparing result classes, assigned ids and balance changes step by step.",
     design_ref="DESIGN.md section 4 C20",
-    level_note="Partial: 12 known-finding classes. 10 are reproduced on the real code and listed (auctionsV2 bids/limit bids not exported, liquidation V1 locked-vault id = count, liquidationsV2 locked-vault id never restored, sweep offsets, vault StableMintVaultRewards, locker id counter, vault id counter = max live id, auction V1 biddings/histories/last-auction ids, liquidation V1 histories, rewards stable-mint external rewards/epochs): all need new GenesisState fields. 2 are read from the regenerated table only (class 11: asset genesis-token-for-app, collector refund counter, esm snapshots, lend per-pool balances, liquidationsV2 reserve tx data, rewards locker/vault external-reward ids, plus the lend/rewards counters of class 10; class 13: esm kill-switch import guard): lend, external locker/vault rewards and esm deposits are not populated by the behavioural run. Four former classes are fixed with patches under fixes/ (C20-F1 net-fee export, C20-F2 auctionsV2 counters, C20-F7 auction V1 lend field, C20-F12 collector lookup import): their theorems are deleted, their witnesses are regression examples and forced harness cases. Not seen by the table: auction V1 ExportGenesis reads the lend dutch auctions of app id 3 only (GetDutchLendAuctions(ctx, 3)). Trusted: Coq kernel, the translator tools/goextract/emit_genesis.go, extraction, OCaml runner, Go harness. No axioms.",
+    level_note="Partial: 11 known-finding classes. 10 are reproduced on the real code and listed (auctionsV2 bids/limit bids not exported, liquidation V1 locked-vault id = count, liquidationsV2 locked-vault id never restored, sweep offsets, vault StableMintVaultRewards, locker id counter, vault id counter = max live id, auction V1 biddings/histories/last-auction ids, liquidation V1 histories, rewards stable-mint external rewards/epochs): all need new GenesisState fields. 1 is read from the regenerated table only (class 11: asset genesis-token-for-app, collector refund counter, esm snapshots, lend per-pool balances, liquidationsV2 reserve tx data, rewards locker/vault external-reward ids, plus the lend/rewards counters of class 10): lend, external locker/vault rewards and esm deposits are not populated by the behavioural run. Decided not a defect: the esm kill-switch import guard (former class 13: sole writer, validates against never-deleted asset apps, asset initialised before esm - read from the table as guard_deps / init_order and checked by c20_esm_guard_harmless). Four former classes are fixed with patches under fixes/ (C20-F1 net-fee export, C20-F2 auctionsV2 counters, C20-F7 auction V1 lend field, C20-F12 collector lookup import): their theorems are deleted, their witnesses are regression examples and forced harness cases. Not seen by the table: auction V1 ExportGenesis reads the lend dutch auctions of app id 3 only (GetDutchLendAuctions(ctx, 3)). Trusted: Coq kernel, the translator tools/goextract/emit_genesis.go, extraction, OCaml runner, Go harness. No axioms.",
     technique="Translator-regenerated table + Coq decision procedure proved sound against an export/init model (vm_compute + forallb_forall) + behavioural round-trip correspondence run",
 )
